@@ -86,13 +86,17 @@ func (d *DBFT[H]) checkPreCommit() {
 		d.preBlockProcessed = true
 	}
 
+	// Commits received before the PreBlock was processed could not be verified
+	// (there was no header yet), so do it now irrespective of whether we're going
+	// to send our own Commit: checkCommit counts every stored Commit.
+	d.verifyCommitPayloadsAgainstHeader()
+
 	// Require PreCommit sent by self for reliability. This condition must not be
 	// removed because:
 	// 1) we need to filter out WatchOnly nodes;
 	// 2) CNs that have not sent PreCommit must not skip this stage (although it's OK
 	//    from the DKG/TPKE side to build final Block based only on other CN's data).
 	if d.PreCommitSent() {
-		d.verifyCommitPayloadsAgainstHeader()
 		d.sendCommit()
 		d.changeTimer(d.timePerBlock)
 		d.checkCommit()
